@@ -126,8 +126,12 @@ func VF_C04_b() {
 		body.Recipient = []byte(AergoEnterprise)
 	}
 	tx := &transaction{Tx: &Tx{Body: body}}
-	if vf.Choice("tx.hash.present", 2) == 0 {
+	switch vf.Choice("tx.hash.shape", 3) {
+	case 0: // the hash a signer computes (SHA-256 is uninterpreted for the engine: only this shape replays natively)
+		tx.Tx.Hash = tx.Tx.CalculateTxHash()
+	case 1: // arbitrary
 		tx.Tx.Hash = vf.Bytes("tx.hash", idLen)
+	case 2: // absent
 	}
 	chainIdHash := vf.Bytes("chainIdHash", idLen)
 	isPublic := vf.Bool("isPublic")
